@@ -791,6 +791,87 @@ Corollary quote_joined_once_wrong p q ps : forallb name_ok (p :: q :: ps) = true
   needs_quote (join_sp (p :: q :: ps)) = true -> shell_words (quote (join_sp (p :: q :: ps))) <> Some (p :: q :: ps).
 Proof. intros H Q. rewrite (quote_joined_once_is_one_word _ H Q). discriminate. Qed.
 
+(* ---- the builder loop of checkAndReplaceSequence is strings.Join of the individually quoted paths ------------------ *)
+
+Lemma trim_right_sp_snoc_sp x : trim_right_sp (x ++ [32%N]) = trim_right_sp x.
+Proof. unfold trim_right_sp, C20.trim_right. rewrite rev_app_distr. reflexivity. Qed.
+
+Lemma trim_right_sp_id x c : N.eqb 32 c = false -> trim_right_sp (x ++ [c]) = x ++ [c].
+Proof.
+  intro E. unfold trim_right_sp, C20.trim_right. rewrite rev_app_distr. cbn [rev app C20.drop_while]. rewrite E.
+  cbn [rev]. rewrite rev_involutive. reflexivity.
+Qed.
+
+Lemma name_char_not_space c : name_char_ok c = true -> N.eqb 32 c = false.
+Proof.
+  intro H. destruct (N.eqb 32 c) eqn:E; [|reflexivity]. apply N.eqb_eq in E. subst c. vm_compute in H. discriminate H.
+Qed.
+
+(* a quoted name ends in a byte that is not a space (so TrimRight leaves it alone) *)
+Lemma quote_ends_nonblank x : name_ok x = true -> exists y c, quote x = y ++ [c] /\ N.eqb 32 c = false.
+Proof.
+  unfold name_ok. intro H. apply andb_true_iff in H as [Hne H]. unfold quote. destruct (needs_quote x).
+  - exists (34%N :: x), 34%N. split; reflexivity.
+  - destruct (exists_last (l := x)) as [y [c E]]; [intro E; subst x; discriminate Hne|].
+    exists y, c. split; [exact E|]. rewrite forallb_forall in H. apply name_char_not_space. apply H.
+    rewrite E. apply in_or_app. right. left. reflexivity.
+Qed.
+
+Lemma join_ends_nonblank p ps : forallb name_ok (p :: ps) = true ->
+  exists y c, join_sp (map quote (p :: ps)) = y ++ [c] /\ N.eqb 32 c = false.
+Proof.
+  revert p. induction ps as [|q ps IH]; intros p H; cbn [forallb] in H; apply andb_true_iff in H as [Hp Hps].
+  - exact (quote_ends_nonblank p Hp).
+  - destruct (IH q Hps) as [y [c [E Hc]]]. exists (quote p ++ 32%N :: y), c. split; [|exact Hc].
+    cbn [map join_sp] in *. rewrite E. rewrite <- app_assoc. reflexivity.
+Qed.
+
+Definition builder (xs : list str) : str := concat (map (fun x => x ++ [32%N]) xs).
+
+Lemma builder_join x xs : builder (x :: xs) = join_sp (x :: xs) ++ [32%N].
+Proof.
+  revert x. induction xs as [|y xs IH]; intro x.
+  - unfold builder. cbn [map concat join_sp]. rewrite app_nil_r. reflexivity.
+  - unfold builder in *. cbn [map concat]. cbn [map concat] in IH. rewrite IH. cbn [join_sp].
+    rewrite <- !app_assoc. reflexivity.
+Qed.
+
+(* C37_join: for names over ordinary characters and the operators, what the loop builds - quote(path), a space, ...,
+   trimmed - is strings.Join(map quote paths, " "); with split_join_quote: splitting it gives the paths *)
+Theorem builder_is_join ps : forallb name_ok ps = true ->
+  trim_right_sp (builder (map quote ps)) = join_sp (map quote ps).
+Proof.
+  destruct ps as [|p ps]; intro H; [reflexivity|].
+  cbn [map]. rewrite builder_join. rewrite trim_right_sp_snoc_sp.
+  destruct (join_ends_nonblank p ps H) as [y [c [E Hc]]]. cbn [map] in E. rewrite E. exact (trim_right_sp_id y c Hc).
+Qed.
+
+Lemma one_out_text w test is_self tool d dir outp o :
+  piece_text (one_out w test is_self tool d dir outp o) = quote (piece_word (one_out w test is_self tool d dir outp o)).
+Proof.
+  unfold one_out, file_destination, mk_piece. destruct tool; [destruct dir; reflexivity|].
+  destruct outp; [destruct dir; reflexivity|]. destruct (test && is_self); [reflexivity|]. destruct dir; reflexivity.
+Qed.
+
+(* the model's expansion of a sequence without entry point and without $(hash): Join of the quoted paths *)
+Theorem car_text_is_join w test runnable multiple dir outp is_self tool all d inp text ps :
+  check_and_replace w test (runnable, multiple, dir, outp, false) is_self tool all d [] inp = ROk (text, ps) ->
+  forallb name_ok (map piece_word ps) = true ->
+  text = join_sp (map quote (map piece_word ps)) /\ shell_words text = Some (map piece_word ps).
+Proof.
+  unfold check_and_replace. intros H OK.
+  destruct (all && negb multiple && Nat.ltb 1 (length (t_outs d)) && is_nil []); [discriminate|].
+  destruct (runnable && negb (t_binary d)); [discriminate|].
+  destruct (runnable && is_nil (t_outs d)); [discriminate|].
+  destruct (test && tool); [discriminate|]. cbn [is_nil] in H. injection H as <- <-.
+  set (sel := if dir then _ else _) in *.
+  assert (map (fun p => piece_text p ++ [32%N]) (map (one_out w test is_self tool d dir outp) sel)
+          = map (fun x => x ++ [32%N]) (map quote (map piece_word (map (one_out w test is_self tool d dir outp) sel)))) as E.
+  { rewrite !map_map. apply map_ext. intro o. rewrite one_out_text. reflexivity. }
+  rewrite E. fold (builder (map quote (map piece_word (map (one_out w test is_self tool d dir outp) sel)))).
+  rewrite (builder_is_join _ OK). split; [reflexivity | exact (split_join_quote _ OK)].
+Qed.
+
 (* ---- witnesses of the defects of the unchanged code ------------------------------------------------------------------ *)
 
 Definition loc_flags : flags := (false, false, false, false, false).       (* $(location) *)
